@@ -179,6 +179,26 @@ impl PeerHandler {
     }
 
     pub async fn run_incoming(&mut self) {
+        // Outgoing-connect seam: the harness answers instead of the network.
+        #[cfg(feature = "verif")]
+        if let Some(answer) = crate::verif::net_connect(&self.connection.addr) {
+            match answer {
+                Some(pipe) => {
+                    self.connection.verif_with_mem(pipe);
+                    self.run().await;
+                }
+                None => {
+                    Self::kill_req(
+                        &self.connection.addr,
+                        &"Connection fail".to_string(),
+                        &mut self.peer_ch,
+                    )
+                    .await
+                }
+            }
+            return;
+        }
+
         match TcpStream::connect(&self.connection.addr).await {
             Ok(socket) => {
                 self.connection.with_socket(socket);
@@ -198,6 +218,39 @@ impl PeerHandler {
     pub async fn run_outgoing(&mut self, socket: TcpStream) {
         self.connection.with_socket(socket);
         self.run().await;
+    }
+
+    /// Run the real connection task over an in-memory pipe instead of a socket.
+    #[cfg(feature = "verif")]
+    pub async fn verif_run(&mut self, pipe: crate::verif::MemPipe) {
+        self.connection.verif_with_mem(pipe);
+        self.run().await;
+    }
+
+    #[cfg(feature = "verif")]
+    fn verif_snapshot(&self) -> crate::verif::HandlerSnap {
+        crate::verif::HandlerSnap {
+            peer_id: self.peer_id,
+            choked: self.peer_state.choked,
+            interested: self.peer_state.interested,
+            keep_alive: self.peer_state.keep_alive,
+            piece_rx: self.piece_rx.as_ref().map(|rx| crate::verif::RxSnap {
+                piece_index: rx.piece_index,
+                hash: rx.hash,
+                buff: rx.buff.clone(),
+                requested: rx.requested.iter().cloned().collect(),
+                left: rx.left.iter().cloned().collect(),
+            }),
+            piece_tx: self
+                .piece_tx
+                .as_ref()
+                .map(|tx| (tx.piece_index, tx.buff.len())),
+            msg_buff: self.msg_buff.iter().map(|f| format!("{:?}", f)).collect(),
+            downloaded: self.stats.downloaded.iter().cloned().collect(),
+            uploaded: self.stats.uploaded.iter().cloned().collect(),
+            unexpected_blocks: self.stats.unexpected_blocks,
+            conn_buffer_len: self.connection.verif_buffer_len(),
+        }
     }
 
     async fn run(&mut self) {
@@ -228,6 +281,9 @@ impl PeerHandler {
         let mut sync_stats_timer = self.start_sync_stats_timer();
 
         loop {
+            #[cfg(feature = "verif")]
+            crate::verif::publish_handler(&self.connection.addr, self.verif_snapshot());
+
             tokio::select! {
                 _ = keep_alive_timer.tick() => self.timeout_keep_alive().await?,
                 _ = sync_stats_timer.tick() => self.timeout_sync_stats().await?,
@@ -781,4 +837,10 @@ impl PeerHandler {
             Err(_) => Err(Error::FileCannotWrite),
         }
     }
+}
+
+/// The (begin, length) blocks a piece of `piece_length` bytes is requested in.
+#[cfg(feature = "verif")]
+pub fn verif_blocks(piece_length: usize) -> Vec<(usize, usize)> {
+    PieceRx::left(piece_length).into_iter().collect()
 }
